@@ -100,3 +100,43 @@ CONTRACTS.append(Contract(
         ('missing-class-is-INVALID_CLASS-not-NOT_FOUND',
          f'implies(exc.status_code == CIM_ERR_NOT_FOUND and not old({INST_OK}), old({CLS_OK}))')])},
 ))
+
+store_get_c = Contract(S + 'InMemoryObjectStore.get', returns=Ref('CIMClass'),
+                       ensures=[('present', 'name in self._data')],
+                       raises={'KeyError': Raises(post=[('only-when-absent', 'name not in self._data')])},
+                       notes='proved above (get)')
+validate_prop_c = Contract(PD + '_validate_property', trusted=True,
+                           raises={'CIMError': Raises(post=[('code', 'exc.status_code == CIM_ERR_INVALID_PARAMETER')])},
+                           notes='property declared in the class and of the declared type, else CIM_ERR_INVALID_PARAMETER (bounded)')
+prov_create_c = Contract('pywbem_mock/_instancewriteprovider.py::InstanceWriteProvider.CreateInstance',
+                         returns=Ref('CIMInstanceName'), raises={'CIMError': Raises()}, trusted=True,
+                         requires=[('the-provider-gets-a-private-copy-not-the-callers-object',
+                                    'fresh(new_instance) and new_instance is not caller_NewInstance'),
+                                   ('same-namespace', 'namespace == caller_namespace')],
+                         notes='the (default or registered) provider; its own behaviour is C11/bounded')
+CLASS_SPECS['CIMClass'] = {'qualifiers': Ref('NocaseDict'), 'properties': Ref('NocaseDict')}
+CLASS_SPECS['CIMInstance']['properties'] = Ref('NocaseDict')
+CLASS_SPECS['CIMProperty'] = {'name': Str}
+CLASS_SPECS['NocaseDict'] = {'__iter__': 'str', '__value__': ('ref', 'CIMProperty')}
+qual_get_c = Contract('external::NocaseDict.get', sig=['self', 'key', 'default=None'], returns=Union(Bool, Ref('CIMQualifier')),
+                      trusted=True)
+NEWCLS_OK = 'NewInstance.classname in g_cstore._data'
+CONTRACTS.append(Contract(
+    PD + 'CreateInstance',
+    params={'self': DISPATCHER, 'namespace': Str, 'NewInstance': Ref('CIMInstance')},
+    requires=['NewInstance.path is None'],
+    ghosts={'g_cstore': CSTORE},
+    callees={'validate_namespace': validate_ns_c, 'get_class_store': get_cstore_c, 'InMemoryObjectStore.get': store_get_c,
+             '_validate_property': validate_prop_c, 'get_registered_provider': registered_c,
+             'CreateInstance': prov_create_c, 'get': qual_get_c},
+    loops={1: LoopSpec(target='pn', types={'pn': Str}), 2: LoopSpec(target='inst_pn', modifies=['$fields'],
+                                                                  types={'inst_pn': Str, 'inst_prop': Ref('CIMProperty'), 'cls_pn': Str})},
+    ensures=[('the-provider-is-reached-only-for-an-existing-class', f'old({NEWCLS_OK})'),
+             ('the-callers-instance-is-not-renamed', 'NewInstance.classname == old(NewInstance.classname)')],
+    raises={'CIMError': Raises(post=[
+        ('status-code-of-the-documented-situation',
+         f'exc.status_code == CIM_ERR_INVALID_NAMESPACE or '
+         f'(exc.status_code == CIM_ERR_INVALID_CLASS and not old({NEWCLS_OK})) or old({NEWCLS_OK})'),
+        ('a-missing-class-is-reported-as-INVALID_CLASS',
+         f'implies(not old({NEWCLS_OK}), exc.status_code in (CIM_ERR_INVALID_NAMESPACE, CIM_ERR_INVALID_CLASS))')])},
+))
